@@ -40,6 +40,9 @@ MUTANTS = [
     ('c12-restart-after-killed', 'C12', 'c12', 900, 'python/experiment/runtime/control.py',
      "        elif exitReason not in [experiment.model.codes.exitReasons[\"Killed\"], experiment.model.codes.exitReasons[\"Cancelled\"],",
      "        elif exitReason == experiment.model.codes.exitReasons[\"Cancelled\"]:\n            retval = component.restart(reason=experiment.model.codes.exitReasons[\"ResourceExhausted\"], code=returncode)\n        elif exitReason not in [experiment.model.codes.exitReasons[\"Killed\"], experiment.model.codes.exitReasons[\"Cancelled\"],"),
+    ('c12-refused-restart-of-stage-without-final-state-unfixed', 'C12', 'c12', 900, 'python/experiment/runtime/control.py',
+     "                    elif restartCode in [experiment.model.codes.restartCodes[\"RestartCouldNotInitiate\"],\n                                         experiment.model.codes.restartCodes[\"RestartMaxAttemptsExceeded\"]]:",
+     "                    elif restartCode == experiment.model.codes.restartCodes[\"RestartCouldNotInitiate\"]:"),
     ('c13-flag-read-after-execution', 'C13', 'c13', 480, 'python/experiment/runtime/engine.py',
      "                if producers_done_when_i_started or self._suicide:", "                if self._producers_are_finished or self._suicide:"),
     ('c13-kill-delay-livelock-unfixed', 'C13', 'c13', 480, 'python/experiment/runtime/engine.py',
